@@ -90,7 +90,7 @@ def run_case(a):
                     pass
         st["foreign_planted"] = len(planted)
         preexisting = {p for p in planted}
-        path = rnd.choice(["cli", "cli-rel", "build", "init", "cli-config", "init-custom", "init-dotslash", "cli-flags-over-config", "cli-flags-over-config"])
+        path = rnd.choice(["cli", "cli-rel", "cli-rel-deep", "build", "init", "cli-config", "init-custom", "init-dotslash", "cli-flags-over-config", "cli-flags-over-config"])
         if path == "cli-flags-over-config":
             # the configuration file names ANOTHER output directory (with foreign files in it); the flags name the real one, so
             # the configured output directory is the flags' (flag > file) and the file's directory must stay untouched
@@ -104,6 +104,11 @@ def run_case(a):
             if path == "cli":
                 argv = [cli, "tauri-typegen", "generate", "-p", src, "-o", os.path.join(root, outrel), "-v", mode]
             elif path == "cli-rel":
+                argv = [cli, "tauri-typegen", "generate", "-p", os.path.relpath(src, cwd), "-o", os.path.relpath(os.path.join(root, outrel), cwd), "-v", mode]
+            elif path == "cli-rel-deep":
+                # run from a directory several levels down: the relative paths start with two or three `..`
+                cwd = os.path.join(root, "app", "tools", "scripts", "gen")
+                os.makedirs(cwd, exist_ok=True)
                 argv = [cli, "tauri-typegen", "generate", "-p", os.path.relpath(src, cwd), "-o", os.path.relpath(os.path.join(root, outrel), cwd), "-v", mode]
             elif path == "cli-config":
                 cfgrel = "app/typegen.custom.json"
